@@ -394,6 +394,10 @@ def callConn (g : G) : List CallItem → G × Res
 def callOp (g : G) (known : Bool) (items : List CallItem) : G × Res :=
   if known then callConn g items else (g, .connErr)
 
+/-- `Node.load` in place, whole node: every old channel with a loaded counterpart of the same TYPE and label hands
+over, one after the other -/
+def reloadConn (g : G) (pairs : List (Nat × Nat)) : G := pairs.foldl (fun g p => (moveChan g p.1 p.2).1) g
+
 /-! ## the alphabet of the current tree -/
 
 inductive Op
@@ -418,6 +422,8 @@ inductive Op
   | pullAttempt (keys : List Nat) (ps : List Prim)
   /-- `set_input_values` / `run(**kwargs)` / `node(**kwargs)` -/
   | call (known : Bool) (items : List CallItem)
+  /-- `Node.load` in place -/
+  | reload (pairs : List (Nat × Nat))
   deriving Repr
 
 def step (g : G) : Op → G × Res
@@ -434,6 +440,7 @@ def step (g : G) : Op → G × Res
   | .moveChan o n => ((moveChan g o n).1, .ok)
   | .pullAttempt keys ps => ((pullAttempt g keys ps).1, .ok)
   | .call known items => callOp g known items
+  | .reload pairs => (reloadConn g pairs, .ok)
 
 def run (g : G) (ops : List Op) : G := ops.foldl (fun g o => (step g o).1) g
 
